@@ -128,6 +128,10 @@ def value_set(f, b, e, depth=0):
         return {e[1]}
     if e[0] == 'cast':
         return value_set(f, b, e[2], depth)
+    if e[0] == 'call' and 'From<bool>' in (e[1] or '') and (e[1] or '').endswith('::from') and len(e[2]) == 1:
+        # u8::from(flag): 0 or 1 (which one on which path is refined by path_value_sets when the flag is a path condition)
+        inner = value_set(f, b, e[2][0], depth)
+        return {0, 1} if inner is None else {int(bool(x)) for x in inner}
     if e[0] == 'call' and (e[1] or '').endswith('Pending::count'):
         cb = f.body(e[1])
         adt = None
